@@ -142,6 +142,80 @@ def make_inputs_ugrid(oid, dtype, fill_case, si):
 
 
 # ------------------------------------------------------------------ copy()
+def _first(x):
+    return x[0] if isinstance(x, tuple) else x
+
+
+def make_copy_export(oid, side, what):
+    """copy, change one side's node longitudes through the property setter, export that side, then export the other side with the same arguments:
+    the other side's export is built from its own (unchanged) coordinates - the two grids share no export cache"""
+    from . import stubs
+
+    def setup(ctx):
+        ctx.const("side", side); ctx.const("what", what)
+        lon = _reals(ctx, "lon", N_NODE, -170, 170)
+        lat = _reals(ctx, "lat", N_NODE, -80, 80)
+        new = _reals(ctx, "new", N_NODE, -170, 170)
+        ctx.assume(z3.Or(*[a != b for a, b in zip(new, lon)]))
+        return lon, lat, new
+
+    def build(lon, lat, cl):
+        return cl({"node_lon": (["n_node"], lon), "node_lat": (["n_node"], lat), "face_node_connectivity": (["n_face", "n_max_face_nodes"], ROWS, C.FN_ATTRS)})
+
+    def export(g):
+        return g.to_linecollection(periodic_elements="ignore") if what == "line" else _first(g.to_polycollection(periodic_elements="ignore"))
+
+    def flat(obj):
+        src = obj.lines if what == "line" else obj.shells
+        if isinstance(src, symnp.SArr):
+            return [_zr(v) for v in src.flat_list()]
+        out = []
+        for seg in src:
+            out += [_zr(v) for v in symnp.asarray(seg).flat_list()]
+        return out
+
+    def run(ctx, inp):
+        lon, lat, new = inp
+        sc.NL_UF[0] = True
+        symnp.SQRT_MODE[0] = "uf"
+        undo = stubs.install(world())
+        try:
+            g = build(lon, lat, C.clone_grid_from)
+            c = g.copy()
+            tgt, other = (g, c) if side == "orig" else (c, g)
+            tgt.node_lon = symxr.DataArray(C.sarr_1d(new, symnp.float64), dims=["n_node"])
+            e_t = export(tgt)
+            e_o = export(other)
+            fresh = export(build(lon, lat, C.clone_grid_from))
+            ctx.prove("the two exports are distinct objects", e_t is not e_o)
+            a, b = flat(e_o), flat(fresh)
+            ctx.prove(f"the {'copy' if side == 'orig' else 'original'}'s export is built from its own coordinates (equals the export of a fresh grid with the unchanged coordinates)",
+                      z3.And(z3.BoolVal(len(a) == len(b) and len(a) > 0), *[x == y for x, y in zip(a, b)]))
+        finally:
+            undo()
+            symnp.SQRT_MODE[0] = "witness"
+
+    def replay(v):
+        import xarray as xr
+        g = build(v["lon"], v["lat"], C.real_grid_from)
+        c = g.copy()
+        tgt, other = (g, c) if side == "orig" else (c, g)
+        tgt.node_lon = xr.DataArray(np.array(v["new"], dtype=float), dims=["n_node"])
+        get = (lambda gr: [np.asarray(s_) for s_ in gr.to_linecollection(periodic_elements="ignore").get_segments()]) if what == "line" else \
+              (lambda gr: [np.asarray(p.vertices) for p in _first(gr.to_polycollection(periodic_elements="ignore")).get_paths()])
+        get(tgt)
+        got = get(other)
+        want = get(build(v["lon"], v["lat"], C.real_grid_from))
+        if len(got) != len(want) or any(a.shape != b.shape or not np.allclose(a, b, atol=1e-5) for a, b in zip(got, want)):
+            return (f"copy(), node_lon of the {'original' if side == 'orig' else 'copy'} set to {v['new']}, exported, then the other grid exported with the same arguments: "
+                    f"its {'line' if what == 'line' else 'polygon'} collection is not the one of its own coordinates (first element {got[0].tolist() if got else None} vs {want[0].tolist() if want else None})")
+        return None
+
+    return Obligation(oid, f"copy(): exports ({what} collection) of the two grids are independent after a setter on the {side}", setup, run, replay, exact=False,
+                      functions=["Grid.copy", "Grid.node_lon setter", "Grid.to_linecollection", "Grid.to_polycollection"],
+                      bounds="2 faces over 5 nodes with symbolic coordinates; periodic_elements='ignore'", stubs=["matplotlib collections -> recording stubs"])
+
+
 def make_copy(oid, mutator, side):
     """side: which grid is mutated ('orig' or 'copy'); the other one is observed"""
     def setup(ctx):
@@ -285,6 +359,7 @@ def obligations(tier):
     obs += [make_inputs_ugrid("C19.inputs.ugrid.int64.std.si1", "int64", "std", 1), make_inputs_ugrid("C19.inputs.ugrid.int64.minus1.si0", "int64", "minus1", 0),
             make_inputs_ugrid("C19.inputs.ugrid.int32.minus1.si1", "int32", "minus1", 1)]
     obs += [make_copy(f"C19.copy.{m.replace('+', '_')}.{s}", m, s) for m in ("setter", "normalize", "face_centers", "lazy+setter") for s in ("orig", "copy")]
+    obs += [make_copy_export("C19.copy.export.line.orig", "orig", "line"), make_copy_export("C19.copy.export.poly.copy", "copy", "poly")]
     obs += [make_export(f"C19.export.{e}.{h}", e, h) for e in ("values_inplace", "drop_var", "attrs", "conn_inplace") for h in ("fresh", "with_topology_var")]
     obs += [make_export("C19.export.values_inplace.edges_first", "values_inplace", "edges_first")]
     return [o for o in obs if tier in o.tiers]
